@@ -637,7 +637,14 @@ def exi1_producers(ctx: Ctx) -> None:
 def exi2_consumers(ctx: Ctx) -> None:
     """every consumer addresses the exiting context as [-1]"""
     sites = 0
-    for mn, q in (("_lowlevel", "contexts_active_in_frame"), ("_types", "Frame._format"), ("_types", "Frame.as_stdlib_summary_with_contexts")):
+    where = [("_lowlevel", "contexts_active_in_frame")]
+    mt = ctx.P.mod("_types")
+    # every method of the result classes that reads <contexts>[i].is_exiting is a consumer (wherever a refactoring put it)
+    for q2, f2 in mt.defs.items():
+        if isinstance(f2, (ast.FunctionDef, ast.AsyncFunctionDef)) and any(
+                isinstance(x, ast.Attribute) and x.attr == "is_exiting" and isinstance(x.value, ast.Subscript) for x in ast.walk(f2)):
+            where.append(("_types", q2))
+    for mn, q in where:
         m = ctx.P.mod(mn)
         fn = m.fn(q)
         ctx.R.saw(m, q)
